@@ -46,6 +46,9 @@ func TestVerif_C12_Namespaces(t *testing.T) {
 	r.Require("sealed_phases", 1)
 	r.Require("data_back_after_unseal", 3)
 	r.Require("spellings_compared", 300)
+	r.Require("group_member_tokens", 4)
+	r.Require("group_cells", 40)
+	r.Require("sibling_namespaces_with_prefix_related_names", 1)
 }
 
 type c12NSRun struct {
@@ -97,6 +100,7 @@ func c12NSCase(t *testing.T, r *kit.Result, rng *kit.Rand, caseID string, transa
 		s.written[m] = c
 	}
 	s.matrix("open", nil)
+	s.groups()
 	// sealed phases
 	var sealable []*c12NS
 	for _, n := range w.nss {
@@ -306,5 +310,120 @@ func (s *c12NSRun) sealedAdmin(S *c12NS) {
 				}
 			}
 		}
+	}
+}
+
+// groups: identity-group policies. A token whose only source of policy is group
+// membership (group defined in its own, an ancestor, a descendant or an
+// unrelated namespace) must, in the default application mode, never be served
+// outside its own namespace subtree. As a positive control the mode is then
+// switched to "any" (out of the property's scope) to show that the memberships
+// were effective.
+func (s *c12NSRun) groups() {
+	type member struct {
+		tok *c12Tok
+		X   *c12NS
+		ok  bool
+	}
+	var members []member
+	open := []*c12NS{}
+	for _, n := range s.nss {
+		if !n.effSealed() {
+			open = append(open, n)
+		}
+	}
+	n := 0
+	for _, T := range open {
+		var am *c12Mount
+		for _, m := range s.liveMounts(func(m *c12Mount) bool { return c12Rec(m) && m.Auth && m.NS == T }) {
+			am = m
+		}
+		if am == nil {
+			am = s.mount(T, "grp/", "verifrec", true)
+			if am == nil {
+				continue
+			}
+		}
+		for _, X := range open {
+			if !s.rng.Chance(2, 3) && X != T {
+				continue
+			}
+			n++
+			q := &c12Req{Kind: "group-login", Op: logical.UpdateOperation, N: T, M: am, Form: "header", Header: T.Path, Path: am.api() + "login/grp" + fmt.Sprint(n),
+				Data: map[string]any{"alias": fmt.Sprintf("c12alias%d", n), "no_default_policy": true, "ttl": "1h"}}
+			s.do(q)
+			if !q.ok() || q.resp == nil || q.resp.Auth == nil || q.resp.Auth.EntityID == "" {
+				s.r.Count("group_logins_without_entity", 1)
+				continue
+			}
+			tok := &c12Tok{Name: fmt.Sprintf("grp%d@%s->%s", n, T.Path, X.Path), ID: q.resp.Auth.ClientToken, NS: T, NSPath: T.Path, Kind: "group"}
+			resp, err := s.v.Do(vReq{Op: logical.UpdateOperation, Path: "identity/group", Token: s.v.Root, NS: X.Path,
+				Data: map[string]any{"name": fmt.Sprintf("c12g%d", n), "policies": []string{"c12-all"}, "member_entity_ids": []string{q.resp.Auth.EntityID}}})
+			created := vOK(resp, err)
+			if !created {
+				s.r.Count("group_with_foreign_member_refused", 1)
+				s.step("group in %q with member entity of %q refused: %s", X.Path, T.Path, c12Short(vErrStr(resp, err)))
+			} else {
+				s.r.Count("groups_created", 1)
+				if X != T {
+					s.r.Count("groups_with_member_of_other_namespace", 1)
+				}
+			}
+			members = append(members, member{tok, X, created})
+			s.r.Count("group_member_tokens", 1)
+		}
+	}
+	var targets []*c12Mount
+	for _, m := range s.liveMounts(c12Rec) {
+		if !m.Auth {
+			targets = append(targets, m)
+		}
+	}
+	run := func(mode string) {
+		for _, mb := range members {
+			for _, M := range targets {
+				p := M.api() + "data/" + M.Tag + "-nm"
+				fs := c12Forms(M.NS, p)
+				f := fs[s.rng.Intn(len(fs))]
+				q := &c12Req{Kind: "group:" + mode, Op: logical.ReadOperation, Tok: mb.tok, N: M.NS, M: M, Marker: M.Tag, Form: f[0], Header: f[1], Path: f[2]}
+				s.do(q)
+				s.checkStorage(q)
+				handled, _ := q.handled()
+				s.r.Count("group_cells", 1)
+				inTok := M.NS.under(mb.tok.NS)
+				byRef := mb.ok && mb.X.under(mb.tok.NS) && M.NS.under(mb.X)
+				s.r.Nontrivial(fmt.Sprintf("group|%s|%v|%v|%v|%d>%d", mode, mb.ok, inTok, byRef, mb.tok.NS.Depth, M.NS.Depth))
+				if mode == "any" {
+					if handled && !inTok {
+						s.r.Count("group_any_mode_served_outside_token_namespace", 1)
+					}
+					continue
+				}
+				switch {
+				case handled && !inTok:
+					s.violate("C12-group-policy-outside-token-namespace", fmt.Sprintf("token %s of namespace %q, whose only policy source is a group in %q, was served %s %q (header %q) by %s in namespace %q", mb.tok.Name, mb.tok.NS.Path, mb.X.Path, q.Op, q.Path, q.Header, M, M.NS.Path), map[string]any{"request": q})
+				case handled && !byRef:
+					s.violate("C12-access-without-policy", fmt.Sprintf("token %s of namespace %q (group in %q, created=%v) was served by %s although no policy defined at or below the token's namespace covers it", mb.tok.Name, mb.tok.NS.Path, mb.X.Path, mb.ok, M), map[string]any{"request": q})
+				case handled:
+					s.r.Count("group_cells_served_inside_hierarchy", 1)
+					s.scanResponse(q, false)
+				default:
+					s.r.Count("group_cells_refused", 1)
+					if byRef {
+						s.r.Count("group_cells_refused_though_reference_allows", 1)
+					}
+				}
+			}
+		}
+	}
+	run("default")
+	if err := s.v.Core.SetGroupPolicyApplicationMode(c12RootCtx(), "any"); err == nil {
+		run("any")
+		if err := s.v.Core.SetGroupPolicyApplicationMode(c12RootCtx(), groupPolicyApplicationModeWithinNamespaceHierarchy); err != nil {
+			s.t.Fatalf("verif: cannot restore the group policy application mode: %v", err)
+		}
+	}
+	for _, mb := range members {
+		mb.tok.Dead = true // not part of the later matrices
 	}
 }
